@@ -288,7 +288,22 @@ func (ex *Exec) buildQuery(o *Obligation, sg subgoal, exclude string, values []*
 func (ex *Exec) buildQueryMode(o *Obligation, sg subgoal, exclude string, values []*Term, light bool, pairs ...bool) string {
 	withPairs := len(pairs) > 0 && pairs[0]
 	tiny := len(pairs) > 1 && pairs[1]
+	dropTypeof := len(pairs) > 2 && pairs[2]
 	asserts, neg, extra := ex.collectAsserts(o, sg, exclude)
+	if dropTypeof {
+		// "nt" variant: the same query without the hypotheses that talk about dynamic
+		// type tags (heap-wide type invariants and their instances). Dropping
+		// hypotheses is sound; it only helps goals that do not depend on them.
+		if mentionsTypeof(neg) {
+			return ""
+		}
+		n0 := len(asserts) + len(extra)
+		asserts = filterNoTypeof(asserts)
+		extra = filterNoTypeof(extra)
+		if len(asserts)+len(extra) == n0 {
+			return ""
+		}
+	}
 	all := append(append(append([]*Term{}, asserts...), extra...), neg)
 	used := map[string]bool{}
 	for _, t := range all {
@@ -545,4 +560,24 @@ func (ex *Exec) knownConjuncts(o *Obligation) map[string]*Term {
 		add(a, True, 0)
 	}
 	return known
+}
+
+func mentionsTypeof(t *Term) bool {
+	found := false
+	t.Walk(func(x *Term) {
+		if x.IsSym && strings.HasPrefix(x.Op, "$typeof") {
+			found = true
+		}
+	})
+	return found
+}
+
+func filterNoTypeof(ts []*Term) []*Term {
+	var out []*Term
+	for _, t := range ts {
+		if !mentionsTypeof(t) {
+			out = append(out, t)
+		}
+	}
+	return out
 }
